@@ -237,8 +237,8 @@ def c02c(prog, R):
     r.floor(8)
 
 
-def c02d(prog, R):
-    r = R.rule("C02.d", "iterators pin their view: the SuperVersion is owned, the blob guard resolves against the same one", "ADT,D")
+def c02d(prog, R, rid="C02.d"):
+    r = R.rule(rid, "iterators pin their view: the SuperVersion is owned, the blob guard resolves against the same one", "ADT,D")
     st = prog.adts.get("range::IterState")
     if st is None:
         r.anchor_missing("struct range::IterState")
